@@ -24,7 +24,10 @@ import (
 
 var pythonScanner python.Scanner
 
-type langTuple struct{ name, version, db, path, hint, kind string }
+type langTuple struct {
+	name, version, db, path, hint, kind string
+	v1, v2, v3                          int32
+}
 
 func scanLang(s indexer.PackageScanner, ents []ent) (map[string]langTuple, []string, bool) {
 	l, err := mkLayer(ents)
@@ -50,7 +53,8 @@ func scanLang(s indexer.PackageScanner, ents []ent) (map[string]langTuple, []str
 			if p.Kind != claircore.BINARY || p.Source != nil || p.Arch != "" || p.Module != "" {
 				bad = append(bad, p.Filepath+": constants")
 			}
-			out[p.Filepath] = langTuple{name: p.Name, version: p.Version, db: p.PackageDB, path: p.Filepath, hint: p.RepositoryHint, kind: p.NormalizedVersion.Kind}
+			out[p.Filepath] = langTuple{name: p.Name, version: p.Version, db: p.PackageDB, path: p.Filepath, hint: p.RepositoryHint, kind: p.NormalizedVersion.Kind,
+				v1: p.NormalizedVersion.V[1], v2: p.NormalizedVersion.V[2], v3: p.NormalizedVersion.V[3]}
 		}
 		return "ok"
 	})
@@ -169,9 +173,14 @@ func runNodejs(r *hx.Run, rnd *hx.Rand, cfg hx.Config) {
 					r.Fail("", "nodejs: invented package at "+p)
 				}
 			}
+			for _, e := range ents {
+				if strings.HasSuffix(e.path, "package.json") {
+					nodeOp(r, e.path, e.data, got)
+				}
+			}
 			for p, w := range want {
 				g, rep := got[p]
-				g.kind = ""
+				g.kind, g.v1, g.v2, g.v3 = "", 0, 0, 0
 				switch {
 				case !rep:
 					r.Fail("", fmt.Sprintf("nodejs: package not reported: %s=%s", p, quoteShort(files[p])))
@@ -183,6 +192,7 @@ func runNodejs(r *hx.Run, rnd *hx.Rand, cfg hx.Config) {
 			}
 		}
 	}
+	runNodejsOdd(r, rnd, cfg)
 	// recorded finding: a package.json that is only a module-type marker
 	{
 		ents := []ent{{path: "app/node_modules/uuid/package.json", data: []byte(`{"name":"uuid","version":"9.0.0"}`)}, {path: "app/node_modules/uuid/dist/esm-browser/package.json", data: []byte(`{"type":"module"}`)}}
@@ -190,6 +200,58 @@ func runNodejs(r *hx.Run, rnd *hx.Rand, cfg hx.Config) {
 		if g, rep := got["app/node_modules/uuid/dist/esm-browser/package.json"]; ok && rep && g.name == "" {
 			r.KnownSeen("nodejs-nameless-package-json", `node_modules/uuid/dist/esm-browser/package.json = {"type":"module"} (a module-type marker, not a package) is reported as a package with empty name and version`)
 		}
+	}
+}
+
+// nodeOp records the protocol line for one file of a scanned layer: the path, whether
+// encoding/json decodes the file into {name, version} (the standard library's verdict, asked
+// directly) and what it decodes to.
+func nodeOp(r *hx.Run, p string, data []byte, got map[string]langTuple) {
+	var pj struct {
+		Name    string `json:"name"`
+		Version string `json:"version"`
+	}
+	kind := "ok"
+	if err := json.NewDecoder(bytes.NewReader(data)).Decode(&pj); err != nil {
+		kind = "bad"
+		pj.Name, pj.Version = "", ""
+	}
+	out := "absent"
+	if g, rep := got[p]; rep {
+		n := "none"
+		if g.kind != "" {
+			n = fmt.Sprintf("%s:%d.%d.%d", g.kind, g.v1, g.v2, g.v3)
+		}
+		out = "ok " + hx.Hex([]byte(g.name)) + " " + hx.Hex([]byte(g.version)) + " " + n
+	}
+	r.Op("node "+hx.Hex([]byte(p))+" "+kind+" "+hx.Hex([]byte(pj.Name))+" "+hx.Hex([]byte(pj.Version)), out, true)
+}
+
+// runNodejsOdd: paths at the edges of the walk's filter, files encoding/json rejects, versions
+// of every shape (correspondence only).
+func runNodejsOdd(r *hx.Run, rnd *hx.Rand, cfg hx.Config) {
+	paths := []string{"node_modules/package.json", "x/node_modulesX/a/package.json", "a/node_modules/b/package.json.bak", "a/node_modules/b/.wh.package.json",
+		"node_modules_old/x/package.json", "a/node_modules/b/PACKAGE.JSON", "package.json", "a/node_modules/package.json/package.json", "a/xnode_modules/b/package.json",
+		"a/node_modules/b/xpackage.json", "a/node_modules/.wh.b/package.json", "a/node_modules/@scope/pkg/package.json", "a/node_modules/b/test/fixtures/package.json"}
+	bodies := []string{`{"name":"a","version":"1.0.0"}`, `{"name":"a","version":"1.0.0"`, `[1]`, `{"name":5,"version":"1"}`, `null`, `{"name":"a","version":"1.0.0"} trailing`,
+		"ï»¿" + `{"name":"a","version":"1"}`, `{"name":"a","name":"b","version":"1","version":"2.0.0"}`, `{"NAME":"upper","Version":"1.2.3"}`, `{"version":"1.0.0"}`, ``, `   `,
+		`{"name":"a\u0000b","version":"1.0.0-é"}`, `{"name":null,"version":null}`, `"just a string"`, `{"name":"a","version":1.0}`}
+	versions := []string{"1.2.3", "v1.2.3", "1.2", "1", "1.2.3-beta.1", "1.2.3+build.5", "01.2.3", "1.2.3.4", "latest", "", "2147483648.0.0", "1.2147483647.99999999999", "9223372036854775808.0.0", "1.2.3-", "1.2.3-a..b", " 1.2.3", "1.2.3 ", "=1.2.3", "1.x", "V1.2.3", "1.2.3-rc.1+meta-data.x"}
+	for i := 0; i < cfg.N(60, 600) && !r.Stop(); i++ {
+		p := rnd.Pick(paths...)
+		body := rnd.Pick(bodies...)
+		if rnd.Chance(1, 2) {
+			b, _ := json.Marshal(map[string]string{"name": rnd.Pick("x", "@a/b", ""), "version": rnd.Pick(versions...)})
+			body = string(b)
+		}
+		ents := []ent{{path: p, data: []byte(body)}}
+		got, _, ok := scanLang(&nodejs.Scanner{}, ents)
+		if !ok {
+			r.Fail("", fmt.Sprintf("nodejs.Scanner.Scan fails on %s=%q", p, body))
+			continue
+		}
+		nodeOp(r, p, []byte(body), got)
+		r.Count("nodejs:odd")
 	}
 }
 
@@ -235,6 +297,7 @@ func renderGemspec(r *hx.Rand, name, version string) []byte {
 }
 
 func runRuby(r *hx.Run, rnd *hx.Rand, cfg hx.Config) {
+	runRubyOdd(r, rnd.Fork(), cfg)
 	names := []string{"rake", "bundler", "rack", "activesupport", "net-http", "json", "mini_portile2", "ruby2_keywords", "a"}
 	for i := 0; i < cfg.N(100, 1500) && !r.Stop(); i++ {
 		k := rnd.Intn(7)
@@ -284,6 +347,9 @@ func runRuby(r *hx.Run, rnd *hx.Rand, cfg hx.Config) {
 					r.Fail("", "ruby: invented package at "+p)
 				}
 			}
+			for _, e := range ents {
+				gemOp(r, e.path, e.data, got)
+			}
 			ps := make([]string, 0, len(want))
 			for p := range want {
 				ps = append(ps, p)
@@ -292,7 +358,7 @@ func runRuby(r *hx.Run, rnd *hx.Rand, cfg hx.Config) {
 			for _, p := range ps {
 				w := want[p]
 				g, rep := got[p]
-				g.kind = ""
+				g.kind, g.v1, g.v2, g.v3 = "", 0, 0, 0
 				switch {
 				case !rep:
 					r.Fail("", fmt.Sprintf("ruby: gem not reported: %s=%s", p, quoteShort(files[p])))
@@ -300,6 +366,83 @@ func runRuby(r *hx.Run, rnd *hx.Rand, cfg hx.Config) {
 					r.Fail("", fmt.Sprintf("ruby: reported %+v, the gemspec states %+v: %s", g, w, quoteShort(files[p])))
 				default:
 					r.Count("ruby:oracle:exact")
+				}
+			}
+		}
+	}
+}
+
+func gemOp(r *hx.Run, p string, data []byte, got map[string]langTuple) {
+	out := "absent"
+	if g, rep := got[p]; rep {
+		out = "ok " + hx.Hex([]byte(g.name)) + " " + hx.Hex([]byte(g.version))
+	}
+	if len(data) > 40000 {
+		// keep the protocol file small: long files are judged by the oracle
+		r.Count("ruby:op-skipped-long")
+		return
+	}
+	r.Op("gem "+hx.Hex([]byte(p))+" "+hx.Hex(data), out, true)
+}
+
+// runRubyOdd: paths at the edges of the path expression, assignments of every shape
+// (correspondence only), and gemspecs with a line beyond bufio.Scanner's 64 KiB token limit.
+func runRubyOdd(r *hx.Run, rnd *hx.Rand, cfg hx.Config) {
+	paths := []string{"usr/share/gems/specifications/a-1.gemspec", "specifications/a-1.gemspec", "x/specifications/.gemspec", "x/specifications/a.gemspec.bak", "x/specifications/sub/dir/a.gemspec",
+		"x/specifications/.wh.a.gemspec", "x/Specifications/a.gemspec", "x/specifications/a.GEMSPEC", "x/myspecifications/a.gemspec", "x/specifications/a.gemspecx/y", "x/specifications/specifications/.gemspec",
+		"x/specifications/a gemspec", "gemspec", "x/specifications/agemspec"}
+	lines := []string{`s.name = "x"`, `s.name = "x".freeze`, `s.name="x"`, `  spec.name    = 'x'  `, "\ts.name\t=\t\"x\"", `s.name = %q{x}`, `s.name = "my gem"`, `s.name = "x" # c`, `s. name = "x"`, `s .name = "x"`,
+		`name = "x"`, `.name = "x"`, `s.name = `, `s.name = ""`, `s.name = "'x'"`, `s.name = x.freeze.freeze`, `a.b.name = "x"`, `a.name=b.name="c"`, `s.name == "x"`, `s.name = = "x"`, `s.fullname = "x"`,
+		`s.name=".freeze"`, `s.names = "x"`, `s.name += "x"`, `Gem::Specification.new do |s| s.name = "x" end`, `s.name = "x"` + "\r", `s.name = "caf\xc3\xa9"`, "s.name\u00a0= \"x\""}
+	for i := 0; i < cfg.N(120, 1500) && !r.Stop(); i++ {
+		p := "usr/share/gems/specifications/a-1.gemspec"
+		if rnd.Chance(1, 3) {
+			p = rnd.Pick(paths...)
+		}
+		var b strings.Builder
+		for k := 1 + rnd.Intn(4); k > 0; k-- {
+			l := rnd.Pick(lines...)
+			if rnd.Chance(1, 2) {
+				l = strings.ReplaceAll(l, "name", "version")
+			}
+			b.WriteString(l + rnd.Pick("\n", "\n", "\r\n", ""))
+		}
+		ents := []ent{{path: p, data: []byte(b.String())}}
+		got, _, ok := scanLang(&ruby.Scanner{}, ents)
+		if !ok {
+			r.Fail("", fmt.Sprintf("ruby.Scanner.Scan fails on %s=%q", p, b.String()))
+			continue
+		}
+		gemOp(r, p, []byte(b.String()), got)
+		r.Count("ruby:odd")
+	}
+	// the scanner's token limit, around 64 KiB
+	for _, n := range []int{65533, 65534, 65535, 65536, 65537, 70000} {
+		for _, tail := range []string{"\n", ""} {
+			for _, where := range []string{"first", "last"} {
+				long := "  s.files = [" + strings.Repeat("x", n-len("  s.files = [")-1) + "]"
+				nv := "  s.name = \"longfiles\"\n  s.version = \"1.0\"\n"
+				file := long + "\n" + nv
+				if where == "last" {
+					file = nv + long + tail
+				}
+				ents := []ent{{path: "usr/share/gems/specifications/longfiles-1.0.gemspec", data: []byte(file)}}
+				got, _, ok := scanLang(&ruby.Scanner{}, ents)
+				_, rep := got[ents[0].path]
+				out := "absent"
+				if rep {
+					g := got[ents[0].path]
+					out = "ok " + hx.Hex([]byte(g.name)) + " " + hx.Hex([]byte(g.version))
+				}
+				r.Op("gem "+hx.Hex([]byte(ents[0].path))+" "+hx.Hex([]byte(file)), out, true)
+				r.Count(fmt.Sprintf("ruby:long-line:%d:reported=%v", n, rep))
+				switch {
+				case !ok:
+					r.Fail("", fmt.Sprintf("ruby.Scanner.Scan fails on a gemspec with a %d-byte line", n))
+				case !rep && n >= 65536:
+					r.KnownSeen("ruby-gemspec-long-line-skipped", fmt.Sprintf("longfiles-1.0.gemspec with a %d-byte `s.files = [...]` line (%s) is not reported", n, where))
+				case !rep:
+					r.Fail("", fmt.Sprintf("ruby: a gemspec with a %d-byte line (%s, tail %q) is not reported", n, where, tail))
 				}
 			}
 		}
@@ -371,7 +514,7 @@ func runJava(r *hx.Run, rnd *hx.Rand, cfg hx.Config) {
 			}
 			for p, w := range want {
 				g, rep := got[p]
-				g.kind = ""
+				g.kind, g.v1, g.v2, g.v3 = "", 0, 0, 0
 				switch {
 				case !rep:
 					r.Fail("", "java: jar not reported: "+p)
